@@ -121,7 +121,16 @@ func TestVP_C31_Pause(t *testing.T) {
 				if at, ok := armedAt[s.addr]; ok {
 					want := vpC31Delay(cfg, armedK[s.addr])
 					min := time.Duration(float64(want)*(1-cfg.Jitter)) - time.Millisecond
-					if gap := s.at.Sub(at); gap < min {
+					if gap := s.at.Sub(at); gap < 0 {
+						// the attempt started before this arm was recorded (its timer fired while the
+						// harness was on its way to the Schedule call): it belongs to the arm before
+						if pv, ok := prevArm[s.addr]; ok && s.at.Sub(pv.at) < pv.min {
+							t.Fatalf("VPFAIL C31 an attempt for %s started %v after it was armed; the backoff allows no less than %v\n  config %+v\n  history: %s", s.addr, s.at.Sub(pv.at), pv.min, cfg, strings.Join(hist, "; "))
+						}
+						delete(prevArm, s.addr)
+						overtaken++
+						continue
+					} else if gap < min {
 						// A Schedule call for an address that was already armed stops the old timer;
 						// a timer that had already fired by then still runs its attempt (it was
 						// waiting for the lock Schedule held). That attempt is judged against the
